@@ -6311,12 +6311,14 @@ impl BytecodeVM {
         // Check if there's a try handler with a finally block between us and the target
         let target_try_depth = try_depth as usize;
 
-        // Find the first try handler ABOVE target depth that has a finally block
+        // Find the innermost try handler above the target depth that has a finally block (its
+        // FinallyEnd re-issues the jump, which then finds the next one further out)
         if let Some(handler_idx) = self
             .try_stack
             .iter()
             .enumerate()
             .skip(target_try_depth)
+            .rev()
             .find(|(_, h)| h.finally_ip != 0)
             .map(|(i, _)| i)
         {
@@ -6367,12 +6369,14 @@ impl BytecodeVM {
         // Check if there's a try handler with a finally block between us and the target
         let target_try_depth = try_depth as usize;
 
-        // Find the first try handler ABOVE target depth that has a finally block
+        // Find the innermost try handler above the target depth that has a finally block (its
+        // FinallyEnd re-issues the jump, which then finds the next one further out)
         if let Some(handler_idx) = self
             .try_stack
             .iter()
             .enumerate()
             .skip(target_try_depth)
+            .rev()
             .find(|(_, h)| h.finally_ip != 0)
             .map(|(i, _)| i)
         {
